@@ -1,6 +1,6 @@
 """C14 - transition iterators (narrow)."""
 from ..rules_shape import floor_a
-from ..rules_tz import floor_b, iter_feedback, in_dst_single
+from ..rules_tz import floor_b, iter_feedback, in_dst_single, handover
 from ..rules_dep import run_dep
 
 
@@ -8,6 +8,7 @@ def run(ctx, rep):
     run_dep(ctx, rep, "C14")
     prog = ctx.prog("Q")
     in_dst_single(rep, prog)
+    handover(rep, prog)
     rep.notes.append("Does not decide completeness ('omits none') or hand-over correctness.")
     floor_b(rep, prog, only=("previous_transition", "next_transition"))
     iter_feedback(rep, prog)
